@@ -345,6 +345,18 @@ func checkC11(w *World, r *Report) {
 			}
 		}
 	}
+	if !okPoll {
+		// … or in a helper with its own (deferred) lock region, which is not spliced into the paths above
+		w.deepCalls(sd, 2, func(c *ssa.Call) {
+			if g := c.Call.StaticCallee(); g != nil && g.Blocks != nil && g.Package() == ro.Root {
+				for _, f := range w.ifFacts(g) {
+					if f.Atom.Op == "true" && strings.Contains(f.Atom.L, ro.pipeRunningName()+"(recv,rangekey(recv.jobsByPipeline))") {
+						okPoll = true
+					}
+				}
+			}
+		})
+	}
 	r.Check(okPoll, "graceful.polls-running", sname+": waits while any pipeline is running", w.Pos(sd.Pos()), "the poll loop evaluates the pipeline-running predicate for every pipeline with jobs", "shutdown does not poll the running predicate of every pipeline")
 
 	// ---- 5. persist coverage
